@@ -6,6 +6,8 @@
 import PolyVerif.Model.Delaunay
 import Mathlib.Tactic
 
+set_option linter.unusedSectionVars false
+
 namespace PolyVerif
 namespace C20
 open Delaunay
@@ -46,7 +48,180 @@ theorem winding_check_sound (P : Nat → Pt R) (tris : List Tri) (h : windingOk 
 example : windingOk (fun i => [((0 : ℤ), (0 : ℤ)), (0, 3), (4, 0)].getD i (0, 0)) [(0, 1, 2)] = true := by
   decide
 
+
+/-! ### the in-circle determinant -/
+
+/-- squared distance -/
+def dist2 (o p : Pt R) : R := (p.1 - o.1) * (p.1 - o.1) + (p.2 - o.2) * (p.2 - o.2)
+
+omit [LinearOrder R] [IsStrictOrderedRing R] in
+/-- The Go determinant, for ANY candidate centre `o` and squared radius `r`: the lifted-paraboloid
+    expansion.  When `a b c` lie on the circle `(o, r)` only the first term survives. -/
+theorem inCircleDet_eq (a b c p o : Pt R) (r : R) :
+    inCircleDet a b c p =
+      (r - dist2 o p) * orient a b c - (r - dist2 o a) * orient b c p
+      + (r - dist2 o b) * orient a c p - (r - dist2 o c) * orient a b p := by
+  simp only [inCircleDet, orient, dist2]; ring
+
+omit [LinearOrder R] [IsStrictOrderedRing R] in
+/-- det = orient · (r² − |p − o|²) for the circle through `a b c` -/
+theorem inCircleDet_on_circle (a b c p o : Pt R) (r : R)
+    (ha : dist2 o a = r) (hb : dist2 o b = r) (hc : dist2 o c = r) :
+    inCircleDet a b c p = (r - dist2 o p) * orient a b c := by
+  rw [inCircleDet_eq a b c p o r, ha, hb, hc]; ring
+
+example : inCircleDet ((0 : ℤ), (0 : ℤ)) (0, 2) (2, 0) (1, 1) = (2 - dist2 (1, 1) (1, 1)) * orient ((0 : ℤ), (0 : ℤ)) (0, 2) (2, 0) :=
+  inCircleDet_on_circle _ _ _ _ (1, 1) 2 (by decide) (by decide) (by decide)
+
+omit [LinearOrder R] [IsStrictOrderedRing R] in
+/-- homogeneity: scaling all coordinates by `s` scales `orient` by `s²` (the driver evaluates the
+    checkers on integers `2^E · x`) -/
+theorem orient_smul (s : R) (a b c : Pt R) :
+    orient (s * a.1, s * a.2) (s * b.1, s * b.2) (s * c.1, s * c.2) = s ^ 2 * orient a b c := by
+  simp only [orient]; ring
+
+omit [LinearOrder R] [IsStrictOrderedRing R] in
+theorem inCircleDet_smul (s : R) (a b c p : Pt R) :
+    inCircleDet (s * a.1, s * a.2) (s * b.1, s * b.2) (s * c.1, s * c.2) (s * p.1, s * p.2)
+      = s ^ 4 * inCircleDet a b c p := by
+  simp only [inCircleDet]; ring
+
+/-- `p` lies strictly inside the circle through `a b c`: some centre `o` and squared radius `r` with
+    `|a-o|² = |b-o|² = |c-o|² = r` and `|p-o|² < r`. -/
+def StrictlyInsideCircumcircle (a b c p : Pt R) : Prop :=
+  ∃ (o : Pt R) (r : R), dist2 o a = r ∧ dist2 o b = r ∧ dist2 o c = r ∧ dist2 o p < r
+
+/-- soundness direction (any ordered commutative ring): clockwise triangle, `p` strictly inside ⇒ `det < 0` -/
+theorem inCircle_neg_of_inside (a b c p : Pt R) (hcw : orient a b c < 0)
+    (h : StrictlyInsideCircumcircle a b c p) : inCircleDet a b c p < 0 := by
+  obtain ⟨o, r, ha, hb, hc, hp⟩ := h
+  rw [inCircleDet_on_circle a b c p o r ha hb hc]
+  exact mul_neg_of_pos_of_neg (by linarith) hcw
+
+
+/-! ### the Delaunay checker -/
+
+theorem delaunay_check_raw (P : Nat → Pt R) (n : Nat) (tris : List Tri) (h : delaunayOk P n tris = true) :
+    ∀ t ∈ tris, ∀ i < n, ¬ inCircleDet (P t.1) (P t.2.1) (P t.2.2) (P i) < 0 := by
+  intro t ht i hi
+  have h1 := (List.all_eq_true.mp h) t ht
+  have h2 := (List.all_eq_true.mp h1) i (List.mem_range.mpr hi)
+  simpa [insideCirc] using h2
+
+/-- **delaunay_check_sound**: if the winding checker and the all-pairs Delaunay checker accept, no
+    circumcircle of an output triangle strictly contains an input point -/
+theorem delaunay_check_sound (P : Nat → Pt R) (n : Nat) (tris : List Tri)
+    (hw : windingOk P tris = true) (hd : delaunayOk P n tris = true) :
+    ∀ t ∈ tris, ∀ i < n, ¬ StrictlyInsideCircumcircle (P t.1) (P t.2.1) (P t.2.2) (P i) := by
+  intro t ht i hi hin
+  exact delaunay_check_raw P n tris hd t ht i hi
+    (inCircle_neg_of_inside _ _ _ _ (winding_check_sound P tris hw t ht) hin)
+
+example : let P : Nat → Pt ℤ := fun i => [((0 : ℤ), (0 : ℤ)), (0, 3), (4, 0), (5, 5)].getD i (0, 0)
+    windingOk P [(0, 1, 2)] = true ∧ delaunayOk P 4 [(0, 1, 2)] = true := by decide
+
+/-! ### the overlap checker -/
+
+/-- `q` is strictly inside the clockwise triangle `t`: strictly on the inner side of its three edges -/
+def StrictlyInside (P : Nat → Pt R) (t : Tri) (q : Pt R) : Prop :=
+  orient (P t.1) (P t.2.1) q < 0 ∧ orient (P t.2.1) (P t.2.2) q < 0 ∧ orient (P t.2.2) (P t.1) q < 0
+
+/-- if the three vertices of `u` are on the closed outer side of the line `a b`, so is every point
+    strictly inside `u` (`orient a b ·` is affine; barycentric identity) -/
+theorem sep_key (a b u1 u2 u3 q : Pt R)
+    (h1 : ¬ orient a b u1 < 0) (h2 : ¬ orient a b u2 < 0) (h3 : ¬ orient a b u3 < 0)
+    (q1 : orient u1 u2 q < 0) (q2 : orient u2 u3 q < 0) (q3 : orient u3 u1 q < 0) :
+    ¬ orient a b q < 0 := by
+  intro hq
+  have key : (orient u1 u2 q + orient u2 u3 q + orient u3 u1 q) * orient a b q =
+      orient u2 u3 q * orient a b u1 + orient u3 u1 q * orient a b u2 + orient u1 u2 q * orient a b u3 := by
+    simp only [orient]; ring
+  push Not at h1 h2 h3
+  have l : 0 < (orient u1 u2 q + orient u2 u3 q + orient u3 u1 q) * orient a b q :=
+    mul_pos_of_neg_of_neg (by linarith) hq
+  have r1 := mul_nonpos_of_nonpos_of_nonneg q2.le h1
+  have r2 := mul_nonpos_of_nonpos_of_nonneg q3.le h2
+  have r3 := mul_nonpos_of_nonpos_of_nonneg q1.le h3
+  linarith
+
+theorem sepEdge_sound (P : Nat → Pt R) (t u : Tri) (h : sepEdge P t u = true) (q : Pt R)
+    (ht : StrictlyInside P t q) (hu : StrictlyInside P u q) : False := by
+  obtain ⟨e, he, hs⟩ := List.any_eq_true.mp h
+  simp only [Bool.and_eq_true, Bool.not_eq_true', decide_eq_false_iff_not] at hs
+  obtain ⟨⟨s1, s2⟩, s3⟩ := hs
+  have := sep_key (P e.1) (P e.2) (P u.1) (P u.2.1) (P u.2.2) q s1 s2 s3 hu.1 hu.2.1 hu.2.2
+  simp only [edges, List.mem_cons, List.not_mem_nil, or_false] at he
+  rcases he with rfl | rfl | rfl
+  · exact this ht.1
+  · exact this ht.2.1
+  · exact this ht.2.2
+
+/-- two triangles overlap: they have a common strictly interior point -/
+def Overlap (P : Nat → Pt R) (t u : Tri) : Prop := ∃ q : Pt R, StrictlyInside P t q ∧ StrictlyInside P u q
+
+/-- **overlap_check_sound**: if the separating-edge checker accepts, no two triangles of the list
+    (at different positions) have a common strictly interior point -/
+theorem overlap_check_sound (P : Nat → Pt R) (tris : List Tri) (h : noOverlapOk P tris = true) :
+    tris.Pairwise (fun t u => ¬ Overlap P t u) := by
+  induction tris with
+  | nil => exact List.Pairwise.nil
+  | cons t ts ih =>
+    simp only [noOverlapOk, Bool.and_eq_true] at h
+    refine List.Pairwise.cons ?_ (ih h.2)
+    intro u hu ⟨q, hqt, hqu⟩
+    have := (List.all_eq_true.mp h.1) u hu
+    simp only [sepOk, Bool.or_eq_true] at this
+    rcases this with h1 | h1
+    · exact sepEdge_sound P t u h1 q hqt hqu
+    · exact sepEdge_sound P u t h1 q hqu hqt
+
+example : let P : Nat → Pt ℤ := fun i => [((0 : ℤ), (0 : ℤ)), (0, 3), (4, 0), (5, 5)].getD i (0, 0)
+    noOverlapOk P [(0, 1, 2), (1, 3, 2)] = true := by decide
+
 end Ring
+
+section Field
+variable {K : Type} [Field K] [LinearOrder K] [IsStrictOrderedRing K]
+
+omit [LinearOrder K] [IsStrictOrderedRing K] in
+private theorem cc_aux (a1 a2 b1 b2 c1 c2 d : K)
+    (hd : d = 2 * ((b1 - a1) * (c2 - a2) - (c1 - a1) * (b2 - a2))) (h : d ≠ 0) :
+    let bx := b1 - a1; let by' := b2 - a2; let cx := c1 - a1; let cy := c2 - a2
+    let ox := a1 + (cy * (bx * bx + by' * by') - by' * (cx * cx + cy * cy)) / d
+    let oy := a2 + (bx * (cx * cx + cy * cy) - cx * (bx * bx + by' * by')) / d
+    (b1 - ox) * (b1 - ox) + (b2 - oy) * (b2 - oy) = (a1 - ox) * (a1 - ox) + (a2 - oy) * (a2 - oy) ∧
+    (c1 - ox) * (c1 - ox) + (c2 - oy) * (c2 - oy) = (a1 - ox) * (a1 - ox) + (a2 - oy) * (a2 - oy) := by
+  intro bx by' cx cy ox oy
+  simp only [ox, oy, bx, by', cx, cy]
+  constructor <;> (field_simp; rw [hd]; ring)
+
+/-- a non-degenerate triangle has a circumcentre (closed form, denominator `2·orient`) -/
+theorem circumcentre_exists (a b c : Pt K) (h : orient a b c ≠ 0) :
+    ∃ o : Pt K, dist2 o b = dist2 o a ∧ dist2 o c = dist2 o a := by
+  obtain ⟨a1, a2⟩ := a; obtain ⟨b1, b2⟩ := b; obtain ⟨c1, c2⟩ := c
+  have h2 : (2 : K) * ((b1 - a1) * (c2 - a2) - (c1 - a1) * (b2 - a2)) ≠ 0 := mul_ne_zero two_ne_zero h
+  have := cc_aux a1 a2 b1 b2 c1 c2 _ rfl h2
+  exact ⟨(_, _), this.1, this.2⟩
+
+/-- **inCircle_iff**: for a clockwise triangle the Go determinant is negative exactly when the point is
+    strictly inside the circumcircle -/
+theorem inCircle_iff (a b c p : Pt K) (hcw : orient a b c < 0) :
+    inCircleDet a b c p < 0 ↔ StrictlyInsideCircumcircle a b c p := by
+  constructor
+  · intro hd
+    obtain ⟨o, hb, hc⟩ := circumcentre_exists a b c hcw.ne
+    refine ⟨o, dist2 o a, rfl, hb, hc, ?_⟩
+    rw [inCircleDet_on_circle a b c p o (dist2 o a) rfl hb hc] at hd
+    by_contra hn
+    push Not at hn
+    have : 0 ≤ (dist2 o a - dist2 o p) * orient a b c :=
+      mul_nonneg_of_nonpos_of_nonpos (by linarith) hcw.le
+    linarith
+  · exact inCircle_neg_of_inside a b c p hcw
+
+example : orient ((0 : ℚ), (0 : ℚ)) (0, 2) (2, 0) < 0 := by norm_num [orient]
+
+end Field
 
 end C20
 end PolyVerif
